@@ -32,8 +32,16 @@ def _canon(val):
     if val.kind == "binop" and val.v in ("Eq", "Ne") and len(val.args) == 2:
         args = sorted(repr(a) for a in val.args)
         return "eq(%s)" % ", ".join(args), val.v == "Eq"
-    if val.kind == "binop" and val.v in ("Lt", "Le", "Gt", "Ge"):
-        return "%s(%s)" % (val.v, ", ".join(repr(a) for a in val.args)), True
+    if val.kind == "binop" and val.v in ("Lt", "Le", "Gt", "Ge") and len(val.args) == 2:
+        a, b = repr(val.args[0]), repr(val.args[1])
+        # one atom per ordered pair: less(a, b); a >= b is its negation, a > b is less(b, a), a <= b the negation of that
+        if val.v == "Lt":
+            return "less(%s, %s)" % (a, b), True
+        if val.v == "Ge":
+            return "less(%s, %s)" % (a, b), False
+        if val.v == "Gt":
+            return "less(%s, %s)" % (b, a), True
+        return "less(%s, %s)" % (b, a), False
     if val.kind == "place":
         return "place(%s)" % val.v, True
     return None, None
